@@ -157,7 +157,11 @@ fn case_rate_and_da(t: &mut Tape, info: &mut CaseInfo) -> Result<(), String> {
     let (what, lazer_spec, legacy_d): (String, ModsSpec, Difficulty) = match which {
         0 | 1 => {
             // DT / NC with speed change r
-            let mut r = (t.range(101, 200) as f64) / 100.0;
+            let mut r = match t.weighted(&[8, 1]) {
+                0 => (t.range(101, 200) as f64) / 100.0,
+                // rates that coincide with a default (no mod: 1.0, DT/NC: 1.5)
+                _ => *t.pick(&[1.5, 1.0]),
+            };
             let rate_bits = if which == 0 { DT } else { NC };
             // a quarter of these selections also contains HalfTime (default speed): the speed-up mod takes
             // precedence, as for legacy mods, whatever its speed change is (drawn from 0.5..2 here)
@@ -170,16 +174,21 @@ fn case_rate_and_da(t: &mut Tape, info: &mut CaseInfo) -> Result<(), String> {
             } else {
                 ModsSpec { bits: base_bits | rate_bits, repr: ModRepr::Lazer, extras: vec![LazerExtra::Rate(r)] }
             };
-            let legacy = Difficulty::new().mods(base_bits | rate_bits | if with_ht { HT } else { 0 }).clock_rate(r);
+            // the two explicit setters in either order
+            let legacy_bits = base_bits | rate_bits | if with_ht { HT } else { 0 };
+            let legacy = if t.coin() { Difficulty::new().mods(legacy_bits).clock_rate(r) } else { Difficulty::new().clock_rate(r).mods(legacy_bits) };
             (format!("{}(speed_change={r}){}", if which == 0 { "DT" } else { "NC" }, if with_ht { "+HT" } else { "" }), ms, legacy)
         }
         2 | 3 => {
-            let r = (t.range(50, 99) as f64) / 100.0;
+            let r = match t.weighted(&[8, 1]) {
+                0 => (t.range(50, 99) as f64) / 100.0,
+                _ => *t.pick(&[0.75, 1.0]),
+            };
             // Daycore has no legacy bit: the legacy side expresses it as HT + clock_rate(r)
             // (clock rate is the only thing either mod contributes to the calculation)
             if which == 2 {
                 let ms = ModsSpec { bits: base_bits | HT, repr: ModRepr::Lazer, extras: vec![LazerExtra::Rate(r)] };
-                let legacy = Difficulty::new().mods(base_bits | HT).clock_rate(r);
+                let legacy = if t.coin() { Difficulty::new().mods(base_bits | HT).clock_rate(r) } else { Difficulty::new().clock_rate(r).mods(base_bits | HT) };
                 (format!("HT(speed_change={r})"), ms, legacy)
             } else {
                 let default_speed = t.chance(1, 3);
@@ -252,7 +261,7 @@ pub fn property() -> Property {
             },
             SubCheck {
                 name: "rate-and-difficulty-adjust",
-                rule: "same maps; lazer DT/NC/HT/DC (Daycore: default speed or r) with speed_change r (1.01..2.00 / 0.50..0.99 step 0.01) vs legacy rate mod + clock_rate(r); lazer DifficultyAdjust{ar,cs,hp,od} on the 0.25 grid in [0,11] vs Difficulty::ar/cs/hp/od(v,false) (fields the mode's DA mod has). Compared: difficulty, strains, performance, attributes().difficulty(&D).build(). Non-trivial: >=2 objects.",
+                rule: "(the explicit side applies mods(..) and clock_rate(r) in either order; r also takes the default rates 1.0 / 1.5 / 0.75) same maps; lazer DT/NC/HT/DC (Daycore: default speed or r) with speed_change r (1.01..2.00 / 0.50..0.99 step 0.01) vs legacy rate mod + clock_rate(r); lazer DifficultyAdjust{ar,cs,hp,od} on the 0.25 grid in [0,11] vs Difficulty::ar/cs/hp/od(v,false) (fields the mode's DA mod has). Compared: difficulty, strains, performance, attributes().difficulty(&D).build(). Non-trivial: >=2 objects.",
                 quick: 15_000,
                 thorough: 100_000,
                 tape_len: 1400,
